@@ -231,6 +231,12 @@ class Runner(object):
             else:
                 self.bystander = cls(**okw)
             self.note('decorators_with_bystander')
+            try:
+                # ... and is applied to another function of the same signature that returns something else: each
+                # decorator memoizes its own function in its own cache
+                self.g = self.bystander(gen.Probe(self.case['sig'], result_mode=('str' if self.probe.result_mode != 'str' else 'tuple')).fn)
+            except Exception:
+                self.g = None
         if cfg.get('copied'):
             import copy as _copy
             self.deco = _copy.copy(self.deco)
@@ -542,6 +548,12 @@ class Runner(object):
                 exc_obj.__cause__ = LookupError('root cause of armed-%d' % i)
             self.armed_cause = exc_obj.__cause__
             self.probe.arm(exc_obj)
+        if getattr(self, 'g', None) is not None and i % 3 == 0:
+            try:
+                self.g(*args, **kwds)      # the other function is asked first
+                self.note('bystander_function_calls')
+            except BaseException:
+                pass
         self.drop_events = []
         self.in_call = True
         self.cur_key = skey(k) if (ok and cls == 'miss') else None
